@@ -105,7 +105,7 @@ def cmd_replay(args) -> int:
     if rr.violation is None:
         print(f"REPLAY property={prop}: no violation (digest {rr.digest}; recorded {doc['digest']})")
         return 0
-    same = rr.violation["signature"] == doc["violation"]["signature"] and rr.digest == doc["digest"]
+    same = bool(doc.get("violation")) and rr.violation["signature"] == doc["violation"]["signature"] and rr.digest == doc["digest"]
     print(f"VIOLATION property={prop} replay={os.path.abspath(args.replay)}")
     print(f"  signature={rr.violation['signature']} digest={rr.digest} reproduces_recorded={same}")
     print(f"  detail={rr.violation['detail'][:1000]}")
